@@ -247,7 +247,9 @@ def run(ctx):
             if delegates:
                 ctx.ok("R17.1", fnkey(b) + "#test-sink>attached", loc(b), "lookup delegated to try_sink, which is checked itself")
             else:
-                precedence(ctx, "R17.1", b, is_test_lookup, is_read, "test-sink>attached")
+                # (the read lock may be taken by a private `with_attached_sink(|sink| ..)` helper)
+                is_read2 = lambda c: is_read(c) or any(sb.crate == SM and sb.kind != "Closure" and reaches_call(F, sb, is_read, depth=1) for sb in local_callee_bodies(F, c))
+                precedence(ctx, "R17.1", b, is_test_lookup, is_read2, "test-sink>attached")
             if b.name == "try_append":
                 # R17.4: the append to the ATTACHED sink is serialised with detach: it happens while the read guard is held,
                 # so dropping the attach handle (write lock -> take -> drop (sink, join handle)) waits for an append in flight
@@ -272,6 +274,32 @@ def run(ctx):
                         held = bool(attached_sites) and all(sites.get(bb_) for bb_ in attached_sites)
                     except Budget:
                         held = False
+                if not reads:
+                    # scope helper: takes the read lock and runs the closure it is given while the guard is live; the appends of that
+                    # closure are then under the lock
+                    for c in b.calls():
+                        for hb in local_callee_bodies(F, c):
+                            if hb.crate != SM or hb.kind == "Closure" or not any(is_read(x) for x in hb.calls()):
+                                continue
+                            cls_ = closure_args(F, c)
+                            inner_att = [x for cl_ in cls_ for x in cl_.calls() if is_append(x)]
+                            if not inner_att:
+                                continue
+                            try:
+                                sim = GuardLive(hb)
+                                seen_inv = {}
+                                orig = sim.on_call
+
+                                def hook2(t, bb, a, env, orig=orig, seen_inv=seen_inv):
+                                    cc = t.get("callee") or {}
+                                    if "callee_op" in t or (cc.get("name") in ("call_once", "call_mut", "call") and "ops::function" in cc.get("def", "")):
+                                        seen_inv[bb] = bool(a) if bb not in seen_inv else (seen_inv[bb] and bool(a))
+                                    return orig(t, bb, a, env)
+                                sim.on_call = hook2
+                                sim.run(0, frozenset(), {})
+                                held = bool(seen_inv) and all(seen_inv.values())
+                            except Budget:
+                                held = False
                 ctx.check(held, "R17.4", fnkey(b) + "#attached-append-under-read-lock", loc(b),
                           "the entry is appended to the attached sink without holding the global's read lock (e.g. through a clone of the sink): dropping the "
                           "attach handle no longer waits for an append in flight, so an entry can be accepted by a sink that was already flushed and "
